@@ -654,7 +654,7 @@ Qed.
 (* the hypothesis is satisfiable on a non-trivial instance: three ranks, one valid, one zero-length,
    one with an invalid start, collective put on a FIXED-size variable *)
 Definition cfg0 (np : Z) : cfg := mkCfg false false false false np 0.
-Definition sh_data : shared := mkSh MColl false false 6 2 2 false 1 false false false false [] [] 0 0 0 0 0 0.
+Definition sh_data : shared := mkSh MColl false false 6 2 2 false 1 [] false false false [] [] 0 0 0 0 0 0.
 Definition req_ok (vk : vkind) (newrec : Z) : local := LReq (mkReq 0 false vk true 0 true newrec false 1).
 Definition req_zero (vk : vkind) : local := LReq (mkReq 0 false vk false 0 true 2 false 1).
 Definition req_bad (e : Z) (vk : vkind) : local := LReq (mkReq e false vk true 0 true 2 false 1).
@@ -844,7 +844,7 @@ Proof. split; [repeat constructor | vm_compute; reflexivity]. Qed.
 Example refuted_fill_var_rec :
   refutes (cfg0 2) sh_data A_fill_var_rec [LFill (mkF false true true false 2 true); LFill (mkF false true true true 2 false)].
 Proof. split; [repeat constructor | vm_compute; reflexivity]. Qed.
-Definition sh_define : shared := mkSh MDefine false false 6 2 2 false 1 false false false false [] [] 0 0 0 0 0 0.
+Definition sh_define : shared := mkSh MDefine false false 6 2 2 false 1 [] false false false [] [] 0 0 0 0 0 0.
 (* metadata call in data mode with the header written collectively (romio_no_indep_rw), no safe mode *)
 Example refuted_rename_hcoll :
   refutes (mkCfg false true false false 2 0) sh_data (A_meta M_rename_var)
@@ -1080,3 +1080,55 @@ Proof.
            end; cbn [snd stop] in H; try discriminate H.
   all: try (match goal with E : (if ?b then _ else _) = (_, _) |- _ => destruct b; inversion E; subst; discriminate end).
 Qed.
+
+(* ================================================================== fill at enddef *)
+(* fillerup_aggregate's collective block is a function of the shared state only: it is executed iff there
+   is a segment, and the number of segments does not depend on the rank *)
+Theorem fill_block_spec : forall sh,
+  fill_new sh = if (0 <? s_nvars sh) && (0 <? fill_nvars sh) && (0 <? fill_j sh)
+                then [(S_fillerup_aggregate_SV1, TFhColl); (S_fillerup_aggregate_WAA1, TFhColl); (S_fillerup_aggregate_SV2, TFhColl)]
+                else [].
+Proof. reflexivity. Qed.
+
+Lemma count_nv_nonneg : forall f l, 0 <= count_nv f l.
+Proof. intros; unfold count_nv; lia. Qed.
+
+(* when there is no segment no rank has anything to write: returning on j = 0 loses nothing *)
+Theorem fill_no_segment_no_data : forall np rank sh,
+  0 <= fill_old_numrecs sh -> fill_j sh = 0 -> fill_buf_len np rank sh = 0.
+Proof.
+  intros np rank sh Hn. unfold fill_j, fill_buf_len, count_nv.
+  induction (s_newvars sh) as [|v l IH]; intro H; [reflexivity|].
+  cbn [filter fold_right] in *.
+  destruct (nv_fill v) eqn:F; cbn [andb] in H.
+  - destruct (nv_isrec v) eqn:R; cbn [negb] in H; cbn [List.length] in H.
+    + assert (E : fill_old_numrecs sh = 0 \/ 0 < fill_old_numrecs sh) by lia.
+      destruct E as [E|E].
+      * rewrite E in *. rewrite Z.mul_0_l. rewrite IH; [reflexivity|]. rewrite Z.mul_0_l in *. lia.
+      * exfalso.
+        assert (0 <= Z.of_nat (List.length (filter (fun v0 => nv_fill v0 && negb (nv_isrec v0)) l))) by lia.
+        assert (0 < Z.of_nat (S (List.length (filter (fun v0 => nv_fill v0 && nv_isrec v0) l)))) by lia.
+        nia.
+    + exfalso.
+      assert (0 <= Z.of_nat (List.length (filter (fun v0 => nv_fill v0 && nv_isrec v0) l))) by lia.
+      assert (0 < Z.of_nat (S (List.length (filter (fun v0 => nv_fill v0 && negb (nv_isrec v0)) l)))) by lia.
+      nia.
+  - rewrite IH; [reflexivity | exact H].
+Qed.
+
+(* ... but a rank can have nothing to write although there are segments (variables with fewer elements than
+   ranks): an early return on the rank's own amount (buf_len = 0) would NOT be taken by all ranks.
+   Witness: 2 ranks, one new scalar in fill mode -- rank 0 writes it, rank 1 writes nothing. *)
+Theorem fill_exit_on_own_amount_would_mismatch :
+  exists np sh r1 r2, 0 <= r1 < np /\ 0 <= r2 < np /\ 0 < fill_j sh /\
+                      fill_buf_len np r1 sh = 0 /\ 0 < fill_buf_len np r2 sh.
+Proof.
+  exists 2, (mkSh MDefine false true 1 0 0 false 1 [mkNv false true 1] false false false [] [] 0 0 0 0 0 0), 1, 0.
+  vm_compute. repeat split; try reflexivity; discriminate.
+Qed.
+
+(* enddef / close-from-define-mode with new variables in fill mode of any sizes: all ranks match
+   (instance of match_noarg, stated for the record) *)
+Theorem match_enddef_fill : forall c sh ls,
+  ranks_ok A_enddef ls -> all_match (traces c sh A_enddef ls).
+Proof. intros. apply match_noarg; [exact I | assumption]. Qed.
